@@ -6,19 +6,21 @@ from .refsem import suite
 from ..propkit import with_oracle
 
 PROPERTY = "C09"
-LEAN_MODULES = ["DAVerif.Props.C09", "DAVerif.Props.C01core", "DAVerif.Props.C04merge"]
+LEAN_MODULES = ["DAVerif.Props.C09", "DAVerif.Props.C01core", "DAVerif.Props.C04merge", "DAVerif.Props.C01all", "DAVerif.Props.C16nested"]
 THEOREMS = ["DAVerif." + t for t in (
     "C09_distinctKeys_card", "C09_project_groups", "C09_project_ungrouped", "C09_project_keys", "C09_project_value",
     "C09_window_rows", "C09_window_value",
     # the generated SQL (modelled engine): same row count as the reference meaning; one row for an un-grouped project
-    "C09_sql_row_count", "Sql.C09_sql_row_count_merges", "C09_sql_ungrouped_one_row")]
+    "C09_sql_row_count", "Sql.C09_sql_row_count_merges", "C09_sql_ungrouped_one_row",
+    # every dialect configuration (merges on/off), and joins nested anywhere in the pipeline
+    "C09_sql_row_count_all", "C09_sql_row_count_nested")]
 ASSUMPTIONS = [
     "the relational model `sem` is the Pandas executor (after fixes D13/D13b: groupby(dropna=False)): tied by suite "
     "k4_sem on every run",
     "assignment targets of one step are pairwise different and differ from the group columns (the builder checks both)",
     "SQL backends incl. the pruning context (D14, fixed) and Polars: judged by the oracle here; SQL-layer theorems elsewhere",
 ]
-NOT_PROVEN = ["SQLite / PostgreSQL-text / Polars row counts and group values (oracle only here)",
+NOT_PROVEN = ["SQLite / PostgreSQL-text / Polars row counts and group values of the REAL executions (oracle); the modelled SQL generator + engine is kernel-checked (C09_sql_row_count, _merges, _all, _nested)",
               "the values of the aggregate functions themselves (C05); Polars nunique counts null (known finding)"]
 LEVEL_TEXT = ("Kernel-checked for every pipeline, interpretation, configuration and environment: a grouped project "
               "returns exactly one row per distinct key tuple of its input (null a key value like any other; "
